@@ -659,12 +659,13 @@ func (g *gen) groupEdit(n int) {
 		if g.chance(0.1) {
 			ins = ""
 		}
-		if g.chance(0.05) {
-			ins = g.dirty(ins)
-		}
+		dirtyIns := g.chance(0.05) // Insert copies its argument; Overtype re-encodes it ([]rune and back)
 		var step string
 		switch g.r.Intn(3) {
 		case 0:
+			if dirtyIns {
+				ins = g.dirty(ins)
+			}
 			step = fmt.Sprintf("insert,0,%s,%s", encInt(g.pos(cc)), encText(ins))
 		case 1:
 			step = fmt.Sprintf("delete,0,%s,%s", encInt(g.pos(cc)), encInt(g.pos(cc)))
